@@ -146,3 +146,17 @@ pub fn ks_diff(
         )
     });
 }
+
+static SYNC_TICK_MS: std::sync::atomic::AtomicU64 = std::sync::atomic::AtomicU64::new(250);
+
+/// How often `begin_keyspace_sync` looks at the progress of its two halves (250 ms in
+/// the code). A harness that runs thousands of exchanges may shorten the period; what
+/// is looked at, and what is done about it, does not change.
+pub fn set_sync_tick(period: std::time::Duration) {
+    SYNC_TICK_MS.store(period.as_millis().max(1) as u64, std::sync::atomic::Ordering::SeqCst);
+}
+
+/// See [set_sync_tick].
+pub fn sync_tick() -> std::time::Duration {
+    std::time::Duration::from_millis(SYNC_TICK_MS.load(std::sync::atomic::Ordering::SeqCst))
+}
